@@ -226,6 +226,20 @@ func (v *vf) pairKeyPos(fn *ssa.Function, key, pos ssa.Value, depth int) string 
 			if f, base := core.LoadedField(key); f == R.LRKey && sameOrigin(base, rec) {
 				return ""
 			}
+			// P1': the record and the key are both parameters of a helper: the pairing is established by the callers
+			if ri, ki := paramIndex(fn, rec), paramIndex(fn, key); ri >= 0 && ki >= 0 {
+				sites := libCallSites(v.p, fn)
+				okAll := len(sites) > 0
+				for _, s := range sites {
+					args := s.Common().Args
+					if ri >= len(args) || ki >= len(args) || !v.keyStoredOn(s.Parent(), args[ri], args[ki]) {
+						okAll = false
+					}
+				}
+				if okAll {
+					return ""
+				}
+			}
 			return "the key is not the key stored in the record passed to the appending call " + core.CalleeName(c.Common())
 		}
 	}
@@ -241,6 +255,25 @@ func (v *vf) pairKeyPos(fn *ssa.Function, key, pos ssa.Value, depth int) string 
 				}
 				if c, pi := extractOf(xp); c != nil && pi == 0 && c.Common().StaticCallee() != nil && v.writeReach[c.Common().StaticCallee()] {
 					return ""
+				}
+				// P2': the positions slice is a parameter of a helper: every caller passes the flushing call's result
+				if xi := paramIndex(fn, xp); xi >= 0 {
+					sites := libCallSites(v.p, fn)
+					okAll := len(sites) > 0
+					for _, s := range sites {
+						args := s.Common().Args
+						if xi >= len(args) {
+							okAll = false
+							continue
+						}
+						c, pi := extractOf(args[xi])
+						if c == nil || pi != 0 || c.Common().StaticCallee() == nil || !v.writeReach[c.Common().StaticCallee()] {
+							okAll = false
+						}
+					}
+					if okAll {
+						return ""
+					}
 				}
 				return "positions are not the result of the flushing call"
 			}
